@@ -62,7 +62,7 @@ class K:
             return [dict(self.bounds)] if self.bounds else [None]
         idx, n = self.split
         if isinstance(n, dict):
-            n = n.get(tier, n.get("quick"))
+            n = n.get(tier, n.get("thorough" if tier == "deep" else "quick", n.get("quick")))
         lo, hi = self.bounds[idx]
         span = hi - lo + 1
         step = (span + n - 1) // n
